@@ -57,8 +57,22 @@ Fixpoint dec_ops (n : nat) (l : list Z) : option (list op) :=
             end
   end.
 
+(* concurrent round: K identical requests issued and rolled back, then P identical requests
+   issued by P goroutines at once.  Each GenerateKey is atomic (mutex), so the outcome is that of
+   SOME sequential order of the P issues; the multiset of tokens is the same for all orders. *)
+Fixpoint insert_z (x : Z) (l : list Z) : list Z :=
+  match l with [] => [x] | y :: r => if x <=? y then x :: l else y :: insert_z x r end.
+Definition sort_z (l : list Z) : list Z := fold_right insert_z [] l.
+Definition conc_ops (k p : nat) : list op :=
+  map (fun i => Issue (Z.of_nat i) (Some [0])) (seq 1 k)
+  ++ map (fun i => Rollback (Z.of_nat i)) (seq 1 k)
+  ++ map (fun i => Issue (Z.of_nat i) (Some [0])) (seq (S k) p).
+Fixpoint nodup_z (l : list Z) : bool :=
+  match l with [] => true | x :: r => negb (existsb (Z.eqb x) r) && nodup_z r end.
+
 Definition run_c16 (i : list Z) : list Z :=
   match i with
+  | [-1; k; p] => sort_z (skipn (Z.to_nat k) (mrun 500 minit (conc_ops (Z.to_nat k) (Z.to_nat p))))
   | cap :: n :: r => match dec_ops (Z.to_nat n) r with
                      | Some ops => mrun (Z.to_nat cap) minit ops
                      | None => bad
@@ -78,6 +92,11 @@ Definition issue_keys (ops : list op) : list hkey :=
    LRU never evicts; histories beyond that only check model/implementation agreement *)
 Definition chk_c16 (i o : list Z) : bool :=
   match i with
+  | [-1; k; p] =>
+      (* tokens held in flight at the same time are pairwise distinct, and the put-back tokens
+         (ids below k) are reused before any fresh one is minted *)
+      (Z.of_nat (length o) =? p) && nodup_z o &&
+      (Z.of_nat (length (filter (fun t => t <? k) o)) =? Z.min k p) && forallb (fun t => 0 <=? t) o
   | cap :: n :: r => match dec_ops (Z.to_nat n) r with
                      | Some ops =>
                          if (length (dedup (issue_keys ops)) <=? Z.to_nat cap)%nat then crun cinit ops o else true
